@@ -375,7 +375,10 @@ impl BulkLoader {
             }
         }
 
-        // Write edge properties (Tag 1)
+        // Write edge properties (Tag 1). Parallel edges share one (src, rel, dst) key and so
+        // one property map: a later edge overwrites the keys of an earlier one, exactly one
+        // entry per property is stored.
+        let mut edge_props: BTreeMap<Vec<u8>, &PropertyValue> = BTreeMap::new();
         for edge in &self.edges {
             let src = external_to_internal[&edge.src_external_id];
             let dst = external_to_internal[&edge.dst_external_id];
@@ -393,11 +396,13 @@ impl BulkLoader {
                 btree_key.extend_from_slice(&dst.to_be_bytes());
                 btree_key.extend_from_slice(&(key.len() as u32).to_be_bytes());
                 btree_key.extend_from_slice(key.as_bytes());
-
-                let encoded_val = value.encode();
-                let blob_id = crate::blob_store::BlobStore::write_direct(pager, &encoded_val)?;
-                tree.insert(pager, &btree_key, blob_id)?;
+                edge_props.insert(btree_key, value);
             }
+        }
+        for (btree_key, value) in edge_props {
+            let encoded_val = value.encode();
+            let blob_id = crate::blob_store::BlobStore::write_direct(pager, &encoded_val)?;
+            tree.insert(pager, &btree_key, blob_id)?;
         }
 
         Ok(tree.root().as_u64())
